@@ -76,6 +76,13 @@ func (fr *Frame) exec(ins ssa.Instruction) bool {
 			if _, isParam := fr.vars[n.Comment]; !isParam {
 				fr.localVars[n.Comment] = Val{t: loc, typ: el, isAddr: true}
 				fr.allocNames[n.Comment] = true
+			} else if fr.isParamName(n.Comment) {
+				// a parameter that lives in a cell (captured by a closure): inside loop clauses its name
+				// means the cell, name0 the value passed in (as for parameters that are loop phis)
+				if fr.paramCells == nil {
+					fr.paramCells = map[string]Val{}
+				}
+				fr.paramCells[n.Comment] = Val{t: loc, typ: el, isAddr: true}
 			}
 		}
 		fr.zeroInit(loc, el)
